@@ -132,6 +132,32 @@ def read_layout(body):
     return out
 
 
+def read_layout_deep(prog, body, _depth=0):
+    """read_layout with the reads of private helpers (functions all of whose callers lie in body's unit — an extracted
+    `read_value_record`) spliced in at the helper's call site"""
+    helpers = {h.id: h for h in prog.private_helpers(body)} if _depth == 0 else {}
+    own = {bi: e for e in read_layout(body) for bi in [e[2]]}
+    sub = {}
+    for bi, t in body.calls():
+        hb = helpers.get(callee(t))
+        # only a helper that reads from the CALLER's reader continues the caller's record (it is handed the File / BufReader);
+        # one that opens its own file (the metadata loader) reads another record
+        if hb is not None and not t['f'].get('ind') and any(
+                'std::fs::File' in hb.locals[i] or 'BufReader' in hb.locals[i] for i in range(1, hb.argc + 1)):
+            lay = read_layout_deep(prog, hb, _depth + 1)
+            if lay:
+                sub[bi] = lay
+    if not sub:
+        return read_layout(body)
+    out = []
+    for bi in _order(body, sorted(set(own) | set(sub))):
+        if bi in own:
+            out.append(own[bi])
+        else:
+            out += [(w, d, bi, None) for (w, d, _b, _base) in sub[bi]]
+    return out
+
+
 def const_items(prog, suffix):
     """values of every use of a const item whose path ends with `suffix`: {item path: set(values)}"""
     import json
